@@ -282,14 +282,14 @@ Proof.
 Qed.
 
 Lemma copy_inner_inv_b self other pos m v w c w' n :
-  TreeFacts w -> Inv04 w -> Inv05 T w -> NoLate T w -> MReach T w m self -> w_nodes w self = Some n ->
+  TreeFacts w -> Inv04 w -> Inv05 T w -> NoLate T w -> MReach T w m self -> model_of self w = Val (OK m, w) -> w_nodes w self = Some n ->
   create_copied_sub_element_inner T self other pos m v w = Val (OK c, w') ->
   copy_clean_b T w w' self c = true ->
   content_mode T (n_type n) <> Val MCharacters ->
   (N.to_nat pos = O -> identifiable_n T w n = false /\ (named T (n_type n) = true -> nm_of w other <> SHORTN)) ->
   Inv04 w' /\ Inv05 T w'.
 Proof.
-  intros HF HI HI5 HNL HRself Hn H Hclean Hmode Hfront.
+  intros HF HI HI5 HNL HRself Hmodself Hn H Hclean Hmode Hfront.
   pose proof (tf_closed w HF) as Cw.
   assert (HFK : FreshKids (w_next w) w').
   { destruct (CopyProofsFK.ccsei_FK T (w_next w) _ _ _ _ _ _ _ _ H) as (_ & _ & HK); [apply N.le_refl| |exact HK].
@@ -409,16 +409,18 @@ Proof.
       destruct (FiltR_node_facts _ _ _ _ _ _ _ HI HF') as (ns & nj & Hs & Hjj & Hnm & Hty & _ & Hch). rewrite Hj1 in Hjj. injection Hjj as <-.
       assert (Hms : content_mode T (n_type ns) = Val MCharacters) by congruence.
       destruct (Hch Hms) as (Ecs & _). rewrite Ecs. eapply IL; eauto. }
+  assert (HLc' : identifiable T w' c = true \/ (forall p j, In (p, j) L -> assoc_get p (m_idents x) = None)).
+  { apply orb_true_iff in HLc as [Hl|Hl]; [left; exact Hl|right].
+    rewrite Hmodself, Hx in Hl. rewrite forallb_forall in Hl.
+    intros p j Hin. specialize (Hl (p, j) Hin). cbn [fst] in Hl. destruct (assoc_get p (m_idents x)); [discriminate Hl|reflexivity]. }
   assert (Hcn0_name : n_name cn0 = nm_of w other).
   { destruct (FiltR_inv T _ _ _ _ _ _ _ HFR) as (ns & nc & Hs & Hc & _ & Hnm & _). rewrite Hcn0 in Hc. injection Hc as <-.
     unfold nm_of. rewrite Hs. exact Hnm. }
   assert (HposN : (N.to_nat pos <= List.length (n_content n))%nat) by exact Hpos.
   split.
   - eapply (copy_inv04 T check_fn w w' w1 w3 self c n cn0 (N.to_nat pos) m x path L R ren v other); eauto.
-    + apply orb_true_iff in HLc as [Hl|Hl]; [left; exact Hl|right]. destruct L; [reflexivity|discriminate].
     + intros Hp. destruct (Hfront Hp) as (H1 & H2). split; [exact H1|]. intros Hnm. rewrite Hcn0_name. exact (H2 Hnm).
   - eapply (copy_inv05 T check_fn TK w w' w1 w3 self c n cn0 (N.to_nat pos) m x path L R ren v other); eauto.
-    + apply orb_true_iff in HLc as [Hl|Hl]; [left; exact Hl|right]. destruct L; [reflexivity|discriminate].
     + intros Hp. destruct (Hfront Hp) as (H1 & H2). split; [exact H1|]. intros Hnm. rewrite Hcn0_name. exact (H2 Hnm).
 Qed.
 
@@ -442,13 +444,12 @@ Theorem C45_copy_b h other w r w' :
 Proof.
   intros HF HI HI5 HK4 HK5 H. pose proof (tf_closed w HF) as Cw.
   destruct (copy_source_unchanged T LATEST h other None w r w' Cw H) as (Cw' & _).
-  cbn [RefsAll.Known04a] in HK4. apply orb_false_iff in HK4 as (HK4 & Hlate).
+  cbn [RefsAll.Known04a] in HK4. apply orb_false_iff in HK4 as (Hfront & Hlate).
   pose proof (late_short_false T w HF Hlate) as HNL.
   cbn [RefsAll.Known05a run_op] in HK5. unfold welem, wbind in HK5. rewrite H in HK5.
   destruct r as [c|e].
   2:{ apply negb_false_iff, N.eqb_eq in HK5. eapply (copy_failed_same T check_fn); eauto. exact (gnf_e_create_copied T LATEST h other w e w' H). }
   cbn in HK5. apply negb_false_iff in HK5.
-  cbn [Known04] in HK4. apply orb_false_iff in HK4 as (Hfront & _).
   unfold e_create_copied_sub_element in H. destruct (h =? other); [discriminate H|].
   wk H. wk H. unfold raw_create_copied_sub_element in H.
   wk H. match goal with E : get_node h w = _ |- _ => apply get_node_inv in E as (n & Hn & Q & _); injection Q as -> end.
@@ -469,13 +470,12 @@ Theorem C45_copy_at_b h other pos w r w' :
 Proof.
   intros HF HI HI5 HK4 HK5 H. pose proof (tf_closed w HF) as Cw.
   destruct (copy_source_unchanged T LATEST h other (Some pos) w r w' Cw H) as (Cw' & _).
-  cbn [RefsAll.Known04a] in HK4. apply orb_false_iff in HK4 as (HK4 & Hlate).
+  cbn [RefsAll.Known04a] in HK4. apply orb_false_iff in HK4 as (Hfront & Hlate).
   pose proof (late_short_false T w HF Hlate) as HNL.
   cbn [RefsAll.Known05a run_op] in HK5. unfold welem, wbind in HK5. rewrite H in HK5.
   destruct r as [c|e].
   2:{ apply negb_false_iff, N.eqb_eq in HK5. eapply (copy_failed_same T check_fn); eauto. exact (gnf_e_create_copied_at T LATEST h other pos w e w' H). }
   cbn in HK5. apply negb_false_iff in HK5.
-  cbn [Known04] in HK4. apply orb_false_iff in HK4 as (Hfront & _).
   unfold e_create_copied_sub_element_at in H. destruct (h =? other); [discriminate H|].
   wk H. wk H. unfold raw_create_copied_sub_element_at in H.
   wk H. match goal with E : get_node h w = _ |- _ => apply get_node_inv in E as (n & Hn & Q & _); injection Q as -> end.
